@@ -467,7 +467,10 @@ CATALOGUE = {"two": mini.lang_two_types, "inherit": lang_inherit, "setops": lang
 
 
 def catalogue_language(name):
-    """name: key of CATALOGUE or 'chain:<kinds joined by />[:sib][:rev]' """
+    """name: key of CATALOGUE or 'chain:<kinds joined by />[:sib][:rev]', optionally followed by REV_SUFFIX
+    (= revise() of the language named before the suffix)"""
+    if name.endswith(REV_SUFFIX):
+        return revise(catalogue_language(name[:-len(REV_SUFFIX)]))
     if name in CATALOGUE:
         return CATALOGUE[name]()
     if name.startswith("chain:"):
@@ -668,3 +671,85 @@ def assoc_sets_shared_roles(names):
             for (lf, rf) in ROLE_PATTERNS:
                 yield [["L0", l, "l0", r, "r0"], ["L1", l2, lf, r2, rf]]
                 yield [["L", l, "l0", r, "r0"], ["L", l2, lf, r2, rf]]
+
+
+# ---------------------------------------------------------------------------------------------------
+# C16: several tags per step; revisions of a language under one #id / #version
+
+def lang_tags():
+    """steps and a defense carrying 2-5 tags (the serialised `tags` of a node is a list: order is content), tags on an
+    inherited step, on a '+>' extension and on an '->' override in a sub-type; a variable"""
+    Node = asset("Node", variables=[("peers", union(field("svcs"), path(field("down"), field("svcs"))))], steps=[
+        attack_step("reach", "or", tags=["entry", "remote", "logged", "hidden", "noisy"],
+                    reaches=[path(var("peers"), step("use")), step("own")]),
+        attack_step("own", "and", tags=["review", "optional", "logged"], reaches=[path(field("svcs"), step("idle"))]),
+        attack_step("fixed", "defense", ttc=mini.TTC_DISABLED, tags=["suppress", "vendor"], reaches=[step("own")]),
+    ])
+    Edge = asset("Edge", sup="Node", steps=[
+        attack_step("reach", "or", tags=["entry", "dmz"], reaches=[path(field("up"), step("reach"))], overrides=False),
+        attack_step("own", "and", tags=["zz", "aa", "mm", "bb"], reaches=[step("reach")], overrides=True),
+    ])
+    Svc = asset("Svc", steps=[
+        attack_step("use", "or", tags=["hidden", "entry", "sandboxed"], reaches=[path(field("host"), step("reach"))]),
+        attack_step("idle", "or", tags=["quiet", "hidden"]),
+    ])
+    return lang([Node, Edge, Svc], [assoc("Runs", "Node", "host", "Svc", "svcs"), assoc("Link", "Node", "up", "Node", "down")])
+
+
+CATALOGUE["tags"] = lang_tags
+
+REV_SUFFIX = "~rev2"
+
+
+def _first_role(e):
+    """left-most role name (field expression) inside e, or None"""
+    if e["type"] == "field":
+        return e
+    for k in ("lhs", "stepExpression", "rhs"):
+        if k in e and isinstance(e[k], dict):
+            f = _first_role(e[k])
+            if f is not None:
+                return f
+    return None
+
+
+def revise(spec):
+    """another revision of the same language: SAME #id, #version, asset / association / step / variable names, different
+    content -- every variable whose definition is not a plain role name is redefined as the left-most role name of its
+    definition (a sub-expression, hence still well-typed wherever a step of the common ancestor is reached through it;
+    steps whose target the narrower type does not own are dropped), every variable that is a plain role name r of type T
+    becomes r[S] for the first proper sub-type S of T if there is one, every step with several reaches expressions loses
+    the last one, every tag list is reversed.  Returns a fresh dict; it differs from spec whenever one of these applies."""
+    out = copy.deepcopy(spec)
+    for a in out["assets"]:
+        for v in a["variables"]:
+            e = v["stepExpression"]
+            if e["type"] == "field":
+                t = static_type(spec, a["name"], e)
+                subs = [d for d in descendants(spec, t) if d != t] if t else []
+                if subs:
+                    v["stepExpression"] = sub(subs[0], copy.deepcopy(e))
+            else:
+                f = _first_role(e)
+                if f is not None:
+                    v["stepExpression"] = copy.deepcopy(f)
+    for a in out["assets"]:
+        for st in a["attackSteps"]:
+            st["tags"] = list(reversed(st["tags"]))
+            if st["reaches"] and len(st["reaches"]["stepExpressions"]) > 1:
+                st["reaches"]["stepExpressions"] = st["reaches"]["stepExpressions"][:-1]
+    # drop reaches / requires expressions that the redefinition of a variable has made ill-typed
+    for a in out["assets"]:
+        for st in a["attackSteps"]:
+            for key in ("reaches", "requires"):
+                if st[key]:
+                    keep = []
+                    for e in st[key]["stepExpressions"]:
+                        body = e["lhs"] if e["type"] == "collect" and final_step(e) else (None if e["type"] == "attackStep" else e)
+                        t = a["name"] if body is None else static_type(out, a["name"], body)
+                        if t is not None and (final_step(e) is None or final_step(e) in steps_ref(out, t)):
+                            keep.append(e)
+                    st[key]["stepExpressions"] = keep
+                    if key == "reaches" and not keep:
+                        st[key] = None
+    return out
